@@ -56,7 +56,7 @@ def cases(seed, tier):
     if tier == 'thorough':
         for i in range(6):
             out.append(dict(seed=int(seed) * 1000003 + 90000 + i, cls=f'{"rate" if i % 2 == 0 else "increment"}-{"S" if i % 4 >= 2 else "N"}',
-                            h=[0.02, 0.05, 0.01][i % 3], T=5100.0, sensor='rate' if i % 2 == 0 else 'increment', south=i % 4 >= 2,
+                            h=[0.02, 0.05, 0.04][i % 3], T=5100.0, sensor='rate' if i % 2 == 0 else 'increment', south=i % 4 >= 2,
                             rungs=2, gentle=True, cost=600))
     return out
 
